@@ -128,10 +128,12 @@ class Bench:
                                                        if cells != want else 'the receive callback runs with %d byte(s), below the threshold of %d' % (len(cells), self.threshold))
         if len(cells) != len(self.delivered) - self.consumed - len(self.inq):
             self.shown_problem = self.shown_problem or 'the receive callback is shown %d byte(s) where %d are unconsumed and read' % (len(cells), len(self.delivered) - self.consumed - len(self.inq))
-        take = {'all': len(cells), 'one': min(1, len(cells)), 'none': 0}[self.consume]
+        take = {'all': len(cells), 'one': min(1, len(cells)), 'none': 0, 'reply': len(cells)}[self.consume]
         if take:
             it.call(it.find_method('tbox::util::Buffer', 'hasRead', 1), [take], this=rec)
             self.consumed += take
+        if self.consume == 'reply' and cells:
+            self.act(('send', 4))
 
     def on_complete(self):
         q = self.it.record_of(self.rec['send_buff_'])
@@ -172,6 +174,15 @@ class Bench:
             # one turn of the event loop: what is ready and armed is dispatched (level-triggered)
             self.pump_write()
             self.pump_read()
+        elif a[0] == 'wake':
+            # one wake-up that reports the descriptor readable *and* writable: the read handler runs first (and may send), then the write handler runs on the readiness
+            # observed before — by now the kernel may have no room left, and write() answers EAGAIN
+            e = self.ev('write')
+            was = bool(e and e.get('enabled') and self.room > 0 and self.rec.get('state_') == 2)
+            self.pump_read()
+            if was and e.get('enabled') and self.rec.get('state_') == 2 and not self.it.faults:
+                f0 = self.prog.fn1(B + '::onWriteCallback')
+                self.it.invoke(f0, f0.stmts[0], e['cb'], [2])
 
     def pump_write(self, limit=60):
         """writability is level-triggered: while the kernel has room and the write event is armed, the handler runs"""
@@ -252,7 +263,7 @@ def r15(ctx, prog):
     ctx.rule('C06.R15', 'A10 the byte stream by abstract replay: scripts of up to %d user / peer actions (send 1 or 4 bytes before and after enable(), the peer draining 2 bytes or everything, '
              'the peer sending 1 or 3 bytes, the peer closing, a turn of the event loop dispatching what is ready and armed) plus long-transfer scripts (a send larger than what the kernel takes at once; 1500 bytes arriving at an empty 0-byte receive '
              'buffer with its 1 KiB spill area) are run on the syntax trees of BufferedFd over the interpreted util::Buffer and a model of the descriptor (partial writes, EAGAIN, '
-             'readv into two areas), the receive callback consuming everything, one byte or nothing: the peer receives exactly the bytes sent, in order, once; send-complete is '
+             'readv into two areas), the receive callback consuming everything, one byte or nothing, or replying with a send of its own in a wake-up that reports the descriptor readable and writable at once (the write handler then meets EAGAIN): the peer receives exactly the bytes sent, in order, once; send-complete is '
              'reported only with an empty queue; the receive callback is shown the unconsumed bytes followed by the new ones; a close is reported once, after the data' % depth, floor=1)
     need = [B + '::onReadCallback', 'tbox::util::Buffer::append']
     if not all(any(g.name == n_ for g in prog.funcs.values()) for n_ in need):
@@ -261,8 +272,8 @@ def r15(ctx, prog):
     bad = None
     runs = 0
     scripts = []
-    for L in range(1, depth + 1):
-        for s_ in itertools.product(ALPHABET, repeat=L):
+    for n_ in range(1, depth + 1):
+        for s_ in itertools.product(ALPHABET, repeat=n_):
             if s_.count(('close',)) > 1 or (('close',) in s_ and any(a[0] == 'peer' for a in s_[s_.index(('close',)):])):
                 continue
             if s_.count(('enable',)) > 1 or any(s_[i] == s_[i + 1] == ('loop',) for i in range(len(s_) - 1)) or s_[0] == ('loop',):
@@ -274,6 +285,14 @@ def r15(ctx, prog):
              (('send', 7), ('send', 2), ('enable',), ('drain', 5), L, ('drain', 1 << 20)),
              (('enable',), ('peer', 1500), L, ('peer', 2), L),
              (('enable',), ('peer', 5), L, ('peer', 1100), ('close',), L)]
+    W = ('wake',)
+    replies = [(('enable',), ('drain', 3), ('send', 1), ('peer', 3), W), (('enable',), ('drain', 3), ('send', 1), ('peer', 3), W, ('peer', 1), W, L), (('enable',), ('drain', 6), ('send', 2), ('peer', 1), W, ('peer', 2), W),
+               (('enable',), ('send', 1), ('drain', 3), L, ('peer', 3), W, L), (('enable',), ('send', 1), ('drain', 2), L, ('peer', 1), W, ('peer', 1), W), (('enable',), ('send', 4), ('drain', 6), L, ('peer', 3), W)]
+    for s_ in replies:
+        runs += 1
+        b, why = run_script(prog, s_, 'reply')
+        if why and bad is None:
+            bad = (s_, 'reply', why)
     for s_ in scripts:
         for consume in (('all', 'one', 'none') if any(a[0] == 'peer' for a in s_) else ('all',)):
             runs += 1
